@@ -22,7 +22,6 @@ import (
 func Main() {
 	runtime.GOMAXPROCS(1)
 	debug.SetGCPercent(-1)
-	debug.SetMaxStack(256 << 20)
 	if len(os.Args) < 2 {
 		fmt.Fprintln(os.Stderr, "usage: worker exec|gen|describe ...")
 		os.Exit(2)
@@ -144,8 +143,9 @@ func describe(prop, tier string) {
 		Types []string `json:"types"`
 		Gen   int      `json:"generated"`
 		Plans int      `json:"plans"`
+		Sweep int      `json:"sweep_types"`
 	}
-	out := d{Types: plainTypes(nil), Gen: len(genTypes), Plans: PlanCount(prop, tier)}
+	out := d{Types: plainTypes(nil), Gen: len(genTypes), Plans: PlanCount(prop, tier), Sweep: sweepCount()}
 	b, _ := json.Marshal(out)
 	os.Stdout.Write(b)
 }
